@@ -33,7 +33,7 @@ def _run_one(spec):
         ctx.skip = set(l.rstrip('\n') for l in open(skipfile)) if os.path.exists(skipfile) else set()
         core.start_watchdog(skipfile)
         core.BUDGET['spent'] = 0.0
-        core.BUDGET['limit'] = float(os.environ.get('PHQV_UNIT_BUDGET_S', '300' if core.tier() == 'quick' else '3600'))
+        core.BUDGET['limit'] = float(os.environ.get('PHQV_UNIT_BUDGET_S', '200' if core.tier() == 'quick' else '3600'))
         _WORKER(ctx)
         out['times']['total'] = time.time() - t0
     except H.BuildError as e:
